@@ -57,6 +57,8 @@ def projects():
                                           {"id": "team", "effort": 120, "alloc": ["a1", "a0", "s2"], "deps": ["p"]},
                                           {"id": "alt", "effort": 180, "alloc": ["a1"], "alt": ["ext", "s2"], "prio": 300},
                                           {"id": "alt2", "effort": 60, "alloc": ["ext"], "alt": ["a0"], "deps": ["q"]}]})
+    # the project starts at 09:00, inside working time: the first task's first booked slot is slot number 0
+    ps.append({"start": "2025-01-06-09:00", "resources": R, "tasks": [T("a", 360), T("b", 120, "r2"), T("c", 240, deps=["a"])]})
     # one task per calendar day across a year end (dates whose ISO week-year / week number differ from the calendar year's)
     ps.append({"start": "2024-12-27", "resources": [{"id": "r1", "rate": 8.0, "hours": [("mon - sun", ["9:00 - 17:00"])]}],
                "tasks": [{"id": "g", "children": [T(f"d{i}", 480, **({"deps": [f"!d{i - 1}"]} if i else {})) for i in range(8)]}]})
